@@ -195,6 +195,22 @@ InheritsIdx == { <<f, d, e, t>> : f \in {"null", "no"}, d \in {"null", "no"}, e 
 InheritsLoops == LET I == SetToSeq(InheritsIdx) IN
     [j \in DOMAIN I |-> Multi("inherits-loop", "any", <<"en", "fr", "de", "es">>, << DefA, AOf(I[j][1]), AOf(I[j][2]), AOf(I[j][3]) >>, InhTables[I[j][4]])]
 
+\* ---- odd locale and namespace names (they become Rust identifiers, module names, file names)
+OddLocales == << "en", "en-US", "en_US", "EN", "zh-Hant-TW", "type", "self", "1x", "e n", "", "fr-", "-fr", "x-private", "en-US-u-ca-buddhist",
+                 "sr-Latn", "i-klingon", "en.US", "root", "und", "Self", "crate", "en--US" >>
+OddNamespaces == << "common", "a-b", "type", "self", "1x", "a b", "", "mod", "super", "a.b", "Self", "crate", "i18n", "Locale" >>
+ConfigAdvCase(defl, other, ns) ==
+    [family |-> "robust", abs |-> [name |-> "config-adv", class |-> "any"],
+     cfg |-> [default |-> defl, locales |-> <<defl, other>>, namespaces |-> IF ns = "-" THEN None ELSE <<ns, "zz">>],
+     files |-> IF ns = "-" THEN << <<defl, MapNode(<< E("k", S(VarX)) >>)>>, <<other, MapNode(<< E("k", S(<<"x">>)) >>)>> >>
+               ELSE << <<defl \o "/" \o ns, MapNode(<< E("k", S(VarX)) >>)>>, <<other \o "/" \o ns, MapNode(<< E("k", S(<<"x">>)) >>)>>,
+                       <<defl \o "/zz", MapNode(<< E("k", S(<<"x">>)) >>)>>, <<other \o "/zz", MapNode(<< E("k", S(<<"x">>)) >>)>> >>]
+ConfigAdversarial ==
+    [j \in DOMAIN OddLocales |-> ConfigAdvCase("en", OddLocales[j], "-")]
+    \o [j \in DOMAIN OddLocales |-> ConfigAdvCase(OddLocales[j], "fr", "-")]
+    \o [j \in DOMAIN OddNamespaces |-> ConfigAdvCase("en", "fr", OddNamespaces[j])]
+    \o [j \in DOMAIN OddLocales |-> ConfigAdvCase("en", OddLocales[j], "common")]
+
 \* nesting depth n (recursion of the splitter is inherent in nesting)
 DeepNest(n) == <<
   Single("nested-comps-" \o ToString(n), "ok", << E("a", S(NestedComps(n))) >>)
